@@ -1262,7 +1262,9 @@ def generate_problem_ctors():
                    + "[" + ", ".join(_lean_str(x) for x in params) + "]\n")
         out.append(f"/-- default values of the trailing parameters of `{cls.__name__}.__init__` (source text) -/\ndef {nm}Defaults : List String := "
                    + "[" + ", ".join(_lean_str(x) for x in defaults) + "]\n")
-        out.append(f"/-- body of `{cls.__name__}.__init__` -/\ndef {nm} : List Stmt :=\n  " + _stmts_to_lean(_nodoc(fa.body), 2) + "\n")
+        # (normal form: the zero-argument `super()` of Python 3 is written out as `super(<Class>, self)`)
+        body = _stmts_to_lean(_nodoc(fa.body), 2).replace('"super().__init__"', f'"super({cls.__name__}, self).__init__"')
+        out.append(f"/-- body of `{cls.__name__}.__init__` -/\ndef {nm} : List Stmt :=\n  " + body + "\n")
     return "\n".join(out) + "\nend Gen.ProblemCtors\n", []
 
 
